@@ -21,7 +21,6 @@ type c18State struct {
 	prefix string
 	seen   map[string]bool
 	ops    int
-	quiet  bool
 }
 
 func (s *c18State) call(op string, f func()) (panicked bool) {
@@ -33,11 +32,6 @@ func (s *c18State) call(op string, f func()) (panicked bool) {
 	}
 	fd := s.ctx.findings[len(s.ctx.findings)-1]
 	stem := fd.Sig[len(s.prefix)+len("/panic/"):]
-	if s.quiet {
-		s.ctx.findings = s.ctx.findings[:n]
-		s.ctx.Class("unjudged-panic/" + s.prefix + "/" + stem + "/via/" + op)
-		return panicked
-	}
 	if s.seen[fd.Sig] {
 		s.ctx.findings = s.ctx.findings[:n]
 		s.ctx.Class("again/" + stem)
@@ -54,7 +48,7 @@ type c18IDCase struct {
 }
 
 func c18IDCheck(ctx *vfCtx, c c18IDCase) {
-	s := &c18State{ctx: ctx, prefix: "C18", seen: map[string]bool{}, quiet: os.Getenv("VF_C18_DISCOVER") != ""}
+	s := &c18State{ctx: ctx, prefix: "C18", seen: map[string]bool{}}
 	str := string(c.Text)
 	accepted := false
 
